@@ -294,7 +294,7 @@ Definition call_value (st : state) (f : value) (args : list value) : sres :=
     | _ => throw st ERuntimeError (B "PANIC: bound native")
     end
   | VClosure a => call_closure st a f args
-  | VNative n => call_native st n f args
+  | VNative n _ => call_native st n f args
   | _ => throw st ETypeError (B "Can only call functions and methods.")
   end.
 
@@ -302,7 +302,7 @@ Definition call_value (st : state) (f : value) (args : list value) : sres :=
 Definition invoke_from_class (st : state) (c : addr) (m : name) (recv : value) (args : list value) : sres :=
   match alist_find m (class_methods (st_store st) c) with
   | Some (VClosure cl) => call_closure st cl recv args
-  | Some (VNative n) => call_native st n recv args
+  | Some (VNative n _) => call_native st n recv args
   | _ => throw st EAttributeError (B "Undefined property '" ++ m ++ B "'.")
   end.
 
@@ -423,8 +423,8 @@ Definition do_return (st : state) (k : list frame) (rs : option addr) (sl : line
   end.
 
 (* ---------- built-in globals of every module (vm.rs init_built_in_globals) ---------- *)
-Definition builtin_globals (cc : core_classes) : list (name * value) :=
-  [ (B "clock", VNative NClock); (B "type", VNative NType); (B "print", VNative NPrint);
+Definition builtin_globals (cc : core_classes) (m : addr) : list (name * value) :=
+  [ (B "clock", VNative NClock m); (B "type", VNative NType m); (B "print", VNative NPrint m);
     (B "Type", VClass (cc_type cc)); (B "Object", VClass (cc_object cc));
     (B "Nil", VClass (cc_nil cc)); (B "Bool", VClass (cc_bool cc)); (B "Num", VClass (cc_num cc));
     (B "Func", VClass (cc_func cc)); (B "BuiltIn", VClass (cc_builtin cc));
@@ -437,7 +437,7 @@ Definition builtin_globals (cc : core_classes) : list (name * value) :=
 
 Definition install_builtins (s : store) (m : addr) : store :=
   set_module_globals s m
-    (fold_left (fun gs kv => alist_set (fst kv) (snd kv) gs) (builtin_globals (s_cc s))
+    (fold_left (fun gs kv => alist_set (fst kv) (snd kv) gs) (builtin_globals (s_cc s) m)
                (module_globals s m)).
 
 Definition script_fn (p : program) : fn_info := mkFn [] FKScript [] (FBStmts p).
